@@ -109,7 +109,7 @@ func OSEnvs() []OSEnv {
 		{"", ""},
 		{"typical", "NAME=\"Debian GNU/Linux\"\nID=debian\nVERSION_ID=\"12.4\"\nVERSION=\"12 (bookworm)\"\nVERSION_CODENAME=bookworm\nBUILD_ID=18244.85.29\n"},
 		{"dotless-version", "ID=alpine\nVERSION_ID=3\n"},
-		{"needs-escaping", "NAME=\"N a/me\"\nID=\"my os+1\"\nVERSION_ID=\"1 2/3@x#y?%é\"\nVERSION=\"v 1/2\"\nVERSION_CODENAME=\"code name/α\"\nBUILD_ID=\"b 1/2\"\n"},
+		{"needs-escaping", "NAME=\"N a/me\"\nID=\"my os+1\"\nVERSION_ID=\"1 2/3@x#y?%é+z&w=v:u\"\nVERSION=\"v 1/2+3\"\nVERSION_CODENAME=\"code name/α+β&γ=δ\"\nBUILD_ID=\"b 1/2+3\"\n"},
 		{"id-only", "ID=ubuntu\n"},
 		{"codename-only", "VERSION_CODENAME=jammy\n"},
 		{"version-only", "VERSION_ID=\"22.04\"\n"},
@@ -367,7 +367,7 @@ type Subst struct {
 	// PurlEdit != "": edit every *purl.PackageURL held in an exported top-level field of the
 	// metadata (packages of the SBOM extractors keep the PURL they read there): "no-version",
 	// "no-namespace", "no-qualifiers", "no-subpath", "name-only", "with-subpath", "with-namespace",
-	// "with-qualifiers", "with-everything".
+	// "with-qualifiers", "with-everything", "with-reserved-characters".
 	PurlEdit string
 }
 
@@ -377,7 +377,7 @@ type Subst struct {
 func PurlFieldSubstitutions() []Subst {
 	var out []Subst
 	for _, e := range []string{"no-version", "no-namespace", "no-qualifiers", "no-subpath", "name-only",
-		"with-subpath", "with-namespace", "with-qualifiers", "with-everything"} {
+		"with-subpath", "with-namespace", "with-qualifiers", "with-everything", "with-reserved-characters"} {
 		out = append(out, Subst{Label: "purlfield:" + e, PurlEdit: e})
 	}
 	return out
@@ -508,6 +508,16 @@ func editPurlFields(m any, edit string) bool {
 		case "with-qualifiers":
 			if len(u.Qualifiers) == 0 {
 				u.Qualifiers = purl.Qualifiers{{Key: "arch", Value: "x86 64"}, {Key: "distro", Value: "d-1"}}
+			}
+		case "with-reserved-characters":
+			// every reserved character class in every component the exporters carry
+			const reserved = "a+b c%d&e=f?g#h@i:jé世"
+			u.Namespace = "g++/" + reserved
+			u.Subpath = "c++/" + reserved
+			u.Qualifiers = purl.Qualifiers{{Key: "classifier", Value: reserved}, {Key: "download_url", Value: "https://x.y/a+b?c=d&e=f#g"},
+				{Key: "sourcerpm", Value: "perl-Text-Tabs+Wrap-2013.0523-460.el9.src.rpm"}, {Key: "sourceversion", Value: "12.2.0-14+deb12u1"}}
+			if u.Version == "" {
+				u.Version = "1.0+b2"
 			}
 		case "with-everything":
 			if u.Subpath == "" {
